@@ -13,3 +13,5 @@ import MJ.Props.C06
 #print axioms MJ.C06.include_first_existing
 #print axioms MJ.C06.import_exports_toplevel
 #print axioms MJ.C06.import_of_extending_template
+#print axioms MJ.C06.render_block_most_derived
+#print axioms MJ.C06.render_block_on_fresh_state
